@@ -8,6 +8,7 @@ CONSTANTS
   Weak_PendingSkipsExpiry = FALSE
   Weak_LateAddUnchecked = FALSE
   Weak_ExpiryUsesStartupParams = FALSE
+  Weak_UpdateAfterStateSave = FALSE
   Weak_CommittedMarkersDeferred = FALSE
   Weak_BufferDedupIgnoresVoteType = FALSE
   Weak_BufferUsesCurrentValSet = FALSE
